@@ -124,3 +124,46 @@ Definition verdict (p : prog) (ls : list label) (keys : list key) : option (nat 
             fold_right Nat.max 0 (map (fun k => length (filter (key_eqb k) (s_tlog s))) keys),
             forallb (fun x => match x with (k, e, f, e') => key_eqb (f_key f) k && Nat.eqb e e' end) (s_out s))
   end.
+
+(* ---- schedule builders (so that examples and witnesses do not depend on
+   the exact shape of the generated program) ---------------------------- *)
+(* LStep tid until the thread is idle again / until its next instruction is
+   a read of the cache *)
+Fixpoint drive (p : prog) (s : state) (tid : nat) (stop_at_get : bool) (fuel : nat) : list label * state :=
+  match fuel with
+  | 0 => ([], s)
+  | S n =>
+    match t_req (s_thr s tid), t_k (s_thr s tid), stop_at_get with
+    | None, _, _ => ([], s)
+    | Some _, IGet :: _, true => ([], s)
+    | Some _, _, _ =>
+        match step p s (LStep tid) with
+        | Some s' => let (ls, s'') := drive p s' tid stop_at_get n in (LStep tid :: ls, s'')
+        | None => ([], s)
+        end
+    end
+  end.
+
+(* requests served one after the other, each by its own thread id *)
+Fixpoint seq_schedule (p : prog) (s : state) (reqs : list (nat * key * env)) : list label :=
+  match reqs with
+  | [] => []
+  | (tid, k, e) :: r =>
+      match step p s (LStart tid k e) with
+      | Some s1 => let (ls, s2) := drive p s1 tid false 200 in LStart tid k e :: ls ++ seq_schedule p s2 r
+      | None => []
+      end
+  end.
+
+(* thread 0 completes a request on key (0,0); thread 1 asks for the same key and
+   is stopped right before it reads the cache; the bucket dies; thread 1 reads *)
+Definition alias_witness (p : prog) : list label :=
+  let l0 := seq_schedule p init [(0, (0, 0), 0)] in
+  match run p init l0 with
+  | Some s0 =>
+      match step p s0 (LStart 1 (0, 0) 1) with
+      | Some s1 => let (ls, _) := drive p s1 1 true 200 in l0 ++ LStart 1 (0, 0) 1 :: ls ++ [LGc 0; LStep 1]
+      | None => []
+      end
+  | None => []
+  end.
